@@ -22,10 +22,12 @@ arch, found := arches[name]
 if !found || len(arch.SyscallNames) == 0 { return nil, fmt.Errorf("unsupported arch: %v", name) }
 return arch, nil
 ```
-`runtime.GOARCH` is the parameter `goarch`.  The guard is *regenerated* from the source
-(`Gen.getInfoGuard`, `Gen.getInfoLowers`): the model reports table-less rows as unsupported only if
-the guard read from the code is literally the one above, and lower-cases only if the code calls
-`strings.ToLower`; so a change of either breaks the theorems of `Proofs/C12.lean`.
+`runtime.GOARCH` is the parameter `goarch`.  `getInfo` below is the hand-written reference (it is what
+the correspondence stream compares the compiled `GetInfo` with); the function body is also
+*regenerated* from the source on every run (`Gen.getInfoSkel` in `Gen/GetInfo.lean`, a rendering of
+its statements over the primitives at the end of this file, with Go's short-circuit evaluation and a
+nil dereference as an explicit outcome), and `C12.getinfo_tie` proves the two equal for every
+`GOARCH` and every name.
 
 ### Lower-casing
 `strings.ToLower` maps every rune through `unicode.ToLower`.  All keys of `arches` are over the
@@ -94,12 +96,6 @@ def tableOf (n : String) : Table :=
   else if n = "syscallsX86_64" then Gen.syscallsX86_64
   else []
 
-/-- the guard of `GetInfo` as written in the repaired source -/
-def expectedGuard : String := "!found || len(arch.SyscallNames) == 0"
-
-/-- does the guard read from the source test `len(arch.SyscallNames) == 0`? -/
-def guardChecksNames : Bool := Gen.getInfoGuard == expectedGuard
-
 /-- `len(arch.SyscallNames) == 0` for a row: `SyscallNames` is `invert(<names>)` (or absent = nil);
     an inverted map is empty iff the literal is (`C12.invert_empty_iff`) -/
 def namesEmpty (r : Gen.ArchRow) : Bool := (tableOf r.names).isEmpty
@@ -112,17 +108,58 @@ deriving Repr, DecidableEq
 
 deriving instance DecidableEq for Except
 
-/-- `arches[key]` followed by the guard -/
+/-- `arches[key]` followed by the guard `!found || len(arch.SyscallNames) == 0` -/
 def resolve (key : String) : Except Err Gen.ArchRow :=
   match Gen.arches.lookup key with
   | none => .error (.unsupported key)
   | some v =>
     match rowOfVar v with
     | none => .error (.unsupported key)      -- a value that is not a declared `*Info` does not compile
-    | some r => if guardChecksNames && namesEmpty r then .error (.unsupported key) else .ok r
+    | some r => if namesEmpty r then .error (.unsupported key) else .ok r
 
 def getInfo (goarch name : String) : Except Err Gen.ArchRow :=
   if name = "" then resolve goarch
-  else resolve (if Gen.getInfoLowers then lower name else name)
+  else resolve (lower name)
+
+/-! ### primitives of the regenerated rendering of `GetInfo` (`Gen/GetInfo.lean`)
+
+A `*Info` value is `Option Gen.ArchRow` (`none` = nil).  A condition evaluates to `Option Bool`:
+`none` is a run-time panic (a nil dereference); `&&`, `||` short-circuit as in Go. -/
+
+/-- outcome of the rendered function -/
+inductive Res where
+  | ok (r : Option Gen.ArchRow)        -- `return r, nil`
+  | err (e : Err)                      -- `return nil, fmt.Errorf("unsupported arch: %v", key)`
+  | panic                              -- nil pointer dereference
+  | opaque (what : String)             -- a statement or expression outside the translated subset
+deriving Repr, DecidableEq
+
+/-- `v, found := arches[key]` -/
+def lookupArch (key : String) : Option Gen.ArchRow × Bool :=
+  match Gen.arches.lookup key with
+  | none => (none, false)
+  | some v => (rowOfVar v, true)
+
+/-- `len(a.SyscallNames)`; `none` if `a` is nil -/
+def lenNames (a : Option Gen.ArchRow) : Option Nat := a.map (fun r => (tableOf r.names).length)
+/-- `len(a.SyscallNumbers)` -/
+def lenNumbers (a : Option Gen.ArchRow) : Option Nat := a.map (fun r => (tableOf r.table).length)
+
+def orS (a b : Option Bool) : Option Bool :=
+  match a with | none => none | some true => some true | some false => b
+def andS (a b : Option Bool) : Option Bool :=
+  match a with | none => none | some false => some false | some true => b
+def notS (a : Option Bool) : Option Bool := a.map (!·)
+/-- comparison of two integer expressions (either may panic) -/
+def cmpS (f : Nat → Nat → Bool) (a b : Option Nat) : Option Bool :=
+  match a, b with | some x, some y => some (f x y) | _, _ => none
+/-- `if c { t } else { e }` -/
+def ite3 (c : Option Bool) (t e : Res) : Res :=
+  match c with | none => .panic | some true => t | some false => e
+
+/-- the reference answer in the rendering's result type -/
+def toRes : Except Err Gen.ArchRow → Res
+  | .ok r => .ok (some r)
+  | .error e => .err e
 
 end Arch
